@@ -277,3 +277,132 @@ Theorem wf_step_noob_nc : forall n cl cf rest inst base,
   noob_on (stk (cf :: rest)) (exec_op (mainLoop_nc n) (gfunction_nc (mainLoop_nc n)) cl cf inst base).
 Proof. exact DiscFacts.wf_step_noob_nc_lemma. Qed.
 Print Assumptions wf_step_noob_nc.
+
+(* 10. Towards the run-level statement for the cut machine (RunInv.wf_run_noob_nc_statement, a
+       Definition): the joint judgement jg (no out-of-range fault + heap_ok, par_ok and any
+       growth-stable side condition kept + frame stack restored / left at the bottom on error),
+       proved under the invariant for everything the instructions are made of, with the re-entered
+       loop only assumed safe on invariant states (ml_safeP: the induction hypothesis on fuel):
+       - every host function of the cut machine, callR (any callee incl. __call), PCall incl. the
+         xpcall handler on the failed frames;
+       - pushCallFrame: the pushed frame is a good one (existing closure, pc 0 = instruction head);
+       - exec_op_step_safe: at an accepted instruction, each of the 38 opcodes other than CALL /
+         TAILCALL / RETURN / CLOSURE is free of out-of-range reads, keeps the invariant, leaves the
+         frames below alone and ends with the current frame AT AN INSTRUCTION HEAD (jumps, skips,
+         FORLOOP/FORPREP, TFORLOOP's JMP, MOVEN and SETLIST groups included; metamethods re-enter
+         the loop in the middle).
+       Missing for the statement: the same for CALL / TAILCALL / RETURN (frame push/pop; the
+       discipline part is mainLoop_nc_disc) and CLOSURE (the heap is transiently ill-formed), and
+       the loop/fuel induction that puts the steps together. *)
+From GL Require Import VMX.RunInv.
+From GL Require VMX.RunInvFacts.
+
+Theorem host_functions_inv : forall ml, ml_safeP ml -> forall b, jg (gfunction_nc ml b).
+Proof. exact RunInvFacts.jg_gfunction_nc. Qed.
+Print Assumptions host_functions_inv.
+
+Theorem callR_inv : forall ml, ml_safeP ml -> forall na nr rb, jg (callR ml na nr rb).
+Proof. exact RunInvFacts.jg_callR. Qed.
+Print Assumptions callR_inv.
+
+Theorem PCall_inv : forall ml, ml_safeP ml -> forall na nr h, jg (PCall ml na nr h).
+Proof. exact RunInvFacts.jg_PCall. Qed.
+Print Assumptions PCall_inv.
+
+Theorem pushCallFrame_inv : forall Phi, stable Phi -> forall ofn b lb rb na nr fn meta X,
+  hto (atg Phi X) (pushCallFrame ofn b lb rb na nr fn meta)
+      (fun _ s => exists cf, (atg Phi (cf :: X) s /\ fr_good s cf) /\ ofn = Some (fr_fn cf)) (erg Phi X).
+Proof. exact RunInvFacts.hto_pushCallFrame. Qed.
+Print Assumptions pushCallFrame_inv.
+
+Theorem exec_op_step_safe : forall ml gf, ml_safeP ml -> (forall b, jg (gf b)) ->
+  forall Phi, stable Phi -> forall c cl cf inst base o rest s,
+  closure_ok cl -> xp_nregs (cl_proto cl) <= frame_limit -> 0 <= fr_pc cf - 1 ->
+  op_of_code (opGetOpCode inst) = Some o ->
+  inst_ok (WfTieFacts.fn_of (cl_proto cl)) (tags_of (WfTieFacts.fn_of (cl_proto cl))) (fr_pc cf - 1) inst = true ->
+  fr_fn cf = FnLua c ->
+  o <> OP_CALL -> o <> OP_TAILCALL -> o <> OP_RETURN -> o <> OP_CLOSURE ->
+  heap_ok s -> par_ok s -> Phi s -> vstack s = cf :: rest ->
+  match exec_op ml gf cl cf inst base s with
+  | VRet r s' => r = false /\ heap_ok s' /\ par_ok s' /\ Phi s' /\
+                 exists cf', vstack s' = cf' :: rest /\ fr_fn cf' = FnLua c /\
+                             pc_ok (WfTieFacts.fn_of (cl_proto cl)) (fr_pc cf')
+  | VErr _ s' => heap_ok s' /\ par_ok s' /\ Phi s' /\ exists k, vstack s' = k ++ rest
+  | VFuel => True
+  | VUnsup x => oob x = false
+  end.
+Proof. exact RunInvFacts.exec_op_step_safe_lemma. Qed.
+Print Assumptions exec_op_step_safe.
+
+(* 11. The frame-changing instructions under the invariant (VMX/RunLoopFacts.v): a host function's
+       frame is popped when it returns (callGFunction, plain and tail call), OP_RETURN pops exactly
+       the current frame, OP_CALL either pushes a good Lua frame (existing closure, pc 0) on the
+       unchanged frames or runs a host function and leaves the frames as they were - all without
+       out-of-range fault and keeping heap_ok / par_ok / the side condition. OP_TAILCALL either
+       replaces the frame by a good frame of the Lua callee or runs the host callee and drops both
+       frames. OP_CLOSURE (the heap is
+       transiently ill-formed inside it) ends with a well-formed heap that only grew, the frames
+       below untouched and the current frame behind its capture words, at an instruction head.
+       With item 10 every one of the 42 opcodes now has its step lemma under the invariant. Still
+       missing for wf_run_noob_nc_statement: the loop / fuel induction that puts the steps
+       together (fetch, exec_inst, run_loop_nc, mainLoop_nc; see notes/VMX.md). *)
+From GL Require VMX.RunLoopFacts VMX.DiscFacts.
+
+Theorem callGFunction_inv : forall gf, (forall b, jg (gf b)) -> forall Phi, stable Phi -> forall tailcall g X,
+  hto (atg Phi (g :: X)) (callGFunction gf tailcall)
+      (fun r s => r = false /\ atg Phi (if tailcall then tl X else X) s)
+      (erg Phi (if tailcall then tl X else X)).
+Proof. exact RunLoopFacts.hto_callGFunction. Qed.
+Print Assumptions callGFunction_inv.
+
+Theorem return_step_safe : forall ml gf Phi, stable Phi ->
+  forall cl cf inst base rest s,
+  op_of_code (opGetOpCode inst) = Some OP_RETURN ->
+  heap_ok s -> par_ok s -> Phi s -> vstack s = cf :: rest ->
+  match exec_op ml gf cl cf inst base s with
+  | VRet r s' => heap_ok s' /\ par_ok s' /\ Phi s' /\ vstack s' = rest /\ r = DiscFacts.ret_flag base rest
+  | VErr _ s' => heap_ok s' /\ par_ok s' /\ Phi s' /\ exists k, vstack s' = k ++ rest
+  | VFuel => True
+  | VUnsup x => oob x = false
+  end.
+Proof. exact RunLoopFacts.return_step_safe_lemma. Qed.
+Print Assumptions return_step_safe.
+
+Theorem call_step_safe : forall ml gf, (forall b, jg (gf b)) -> forall Phi, stable Phi ->
+  forall cl cf inst base rest,
+  op_of_code (opGetOpCode inst) = Some OP_CALL ->
+  hto (atg Phi (cf :: rest)) (exec_op ml gf cl cf inst base)
+      (fun r s => r = false /\
+         (atg Phi (cf :: rest) s \/
+          exists new, atg Phi (new :: cf :: rest) s /\ fr_good s new /\ DiscFacts.lua_fr new))
+      (erg Phi rest).
+Proof. exact RunLoopFacts.call_step_safe_lemma. Qed.
+Print Assumptions call_step_safe.
+
+Theorem tailcall_step_safe : forall ml gf, (forall b, jg (gf b)) -> forall Phi, stable Phi ->
+  forall cl cf inst base rest,
+  op_of_code (opGetOpCode inst) = Some OP_TAILCALL ->
+  hto (atg Phi (cf :: rest)) (exec_op ml gf cl cf inst base)
+      (fun r s => (r = false /\ exists cf3, atg Phi (cf3 :: rest) s /\ fr_good s cf3 /\ DiscFacts.lua_fr cf3) \/
+                  (atg Phi rest s /\ r = DiscFacts.tc_flag base rest))
+      (erg Phi rest).
+Proof. exact RunLoopFacts.tailcall_step_safe_lemma. Qed.
+Print Assumptions tailcall_step_safe.
+
+Theorem closure_step_safe : forall ml gf Phi, stable Phi ->
+  forall c cl cf inst base rest s,
+  clos_good cl -> xp_nregs (cl_proto cl) <= frame_limit -> 0 <= fr_pc cf - 1 ->
+  op_of_code (opGetOpCode inst) = Some OP_CLOSURE ->
+  inst_ok (WfTieFacts.fn_of (cl_proto cl)) (tags_of (WfTieFacts.fn_of (cl_proto cl))) (fr_pc cf - 1) inst = true ->
+  fr_fn cf = FnLua c ->
+  heap_ok s -> par_ok s -> Phi s -> vstack s = cf :: rest ->
+  match exec_op ml gf cl cf inst base s with
+  | VRet r s' => r = false /\ heap_ok s' /\ par_ok s' /\ Phi s' /\ pext s s' /\
+                 exists cf', vstack s' = cf' :: rest /\ fr_fn cf' = FnLua c /\
+                             pc_ok (WfTieFacts.fn_of (cl_proto cl)) (fr_pc cf')
+  | VErr _ s' => False
+  | VFuel => True
+  | VUnsup x => oob x = false
+  end.
+Proof. exact RunLoopFacts.closure_step_safe_lemma. Qed.
+Print Assumptions closure_step_safe.
